@@ -223,7 +223,7 @@ class C09Check(StatCheck):
         out.append({"k": 10, "p": None, "N": 30})
         out.append({"k": 20, "p": [3, 10], "N": 40})
         if tier == "thorough":
-            out.append({"k": 10, "p": None, "N": 50})
+            out.append({"k": 10, "p": None, "N": 50, "sparse": True})
             out.append({"k": 10, "p": [1, 1], "N": 30})
             out.append({"k": 100, "p": None, "N": 140, "sparse": True})
             out = out * 2
